@@ -148,10 +148,10 @@ pub struct Shape {
     pub n_outputs: usize,
     pub n_orchard: usize,
     pub n_ironwood: usize,
-    /// Length forced on the scriptSig of the first input (None: as generated, 1..=255 bytes).
-    pub script_sig_len: Option<usize>,
-    /// Length forced on the scriptPubKey of the first output.
-    pub script_pubkey_len: Option<usize>,
+    /// Lengths forced on the scriptSigs, one per input (None: as generated, 1..=255 bytes).
+    pub script_sig_lens: Option<Vec<usize>>,
+    /// Lengths forced on the scriptPubKeys, one per output.
+    pub script_pubkey_lens: Option<Vec<usize>>,
     /// Orchard proof length (None: canonical). A non-canonical length is only constructible for
     /// the historical Orchard bundle version (NU5..NU6.1).
     pub orchard_proof_len: Option<usize>,
@@ -169,8 +169,8 @@ impl Shape {
             n_outputs: 0,
             n_orchard: 0,
             n_ironwood: 0,
-            script_sig_len: None,
-            script_pubkey_len: None,
+            script_sig_lens: None,
+            script_pubkey_lens: None,
             orchard_proof_len: None,
         }
     }
@@ -352,145 +352,177 @@ pub fn sapling_anchor_bytes(sp: &SaplingSpend) -> [u8; 32] {
 // ------------------------------------------------------------------------------------------------
 // the generator
 
-/// Upper bound on distinct pooled elements; larger requests cycle through the pool.
-const POOL_CAP: usize = 48;
+/// Number of distinct pooled elements of each kind; larger requests cycle through the pool.
+pub const POOL: usize = 40;
 
+/// Deterministic generator: the pools are drawn once from the crates' proptest strategies with an
+/// RNG seeded by `seed`; `parts_with(shape, salt)` is then a pure function of (seed, shape, salt),
+/// so a single case can be reproduced without replaying the cases before it.
 pub struct TxGen {
     runner: TestRunner,
     txins: Vec<TxIn<transparent::Authorized>>,
     txouts: Vec<TxOut>,
     spends: Vec<SaplingSpend>,
     outputs: Vec<SaplingOutput>,
-    sapling_sigs: Vec<sapling::bundle::Authorized>,
-    actions: Vec<OrchardAction>,          // note version 2 (Orchard pool)
-    iw_actions: Vec<OrchardAction>,       // note version 3 (Ironwood pool)
+    sapling_auths: Vec<sapling::bundle::Authorized>,
+    actions: Vec<OrchardAction>,    // note version 2 (Orchard pool)
+    iw_actions: Vec<OrchardAction>, // note version 3 (Ironwood pool)
     orchard_misc: Vec<(OrchardAnchor, redpallas::Signature<OrchardBinding>)>,
+    balances: Vec<ZatBalance>,
+    words: Vec<u32>,
     counter: u64,
+}
+
+/// splitmix64
+fn mix(mut z: u64) -> u64 {
+    z = z.wrapping_add(0x9E37_79B9_7F4A_7C15);
+    z = (z ^ (z >> 30)).wrapping_mul(0xBF58_476D_1CE4_E5B9);
+    z = (z ^ (z >> 27)).wrapping_mul(0x94D0_49BB_1331_11EB);
+    z ^ (z >> 31)
+}
+
+struct Salt(u64);
+impl Salt {
+    fn next(&mut self) -> u64 {
+        self.0 = mix(self.0);
+        self.0
+    }
+    fn below(&mut self, n: usize) -> usize {
+        (self.next() % n as u64) as usize
+    }
+    fn bytes(&mut self, n: usize) -> Vec<u8> {
+        let mut v = Vec::with_capacity(n + 8);
+        while v.len() < n {
+            v.extend_from_slice(&self.next().to_le_bytes());
+        }
+        v.truncate(n);
+        v
+    }
 }
 
 impl TxGen {
     pub fn new(seed: u64) -> Self {
+        use orchard::bundle::testing::{arb_action, arb_bundle};
+        use zcash_transparent::bundle::testing::{arb_txin, arb_txout};
         let mut s = [0u8; 32];
         s[..8].copy_from_slice(&seed.to_le_bytes());
         s[8..16].copy_from_slice(b"verifC03");
-        TxGen {
+        let mut g = TxGen {
             runner: TestRunner::new_with_rng(Config::default(), TestRng::from_seed(RngAlgorithm::ChaCha, &s)),
             txins: vec![],
             txouts: vec![],
             spends: vec![],
             outputs: vec![],
-            sapling_sigs: vec![],
+            sapling_auths: vec![],
             actions: vec![],
             iw_actions: vec![],
             orchard_misc: vec![],
-            counter: 0,
+            balances: vec![],
+            words: vec![],
+            counter: mix(seed),
+        };
+        for _ in 0..POOL {
+            let v = g.sample(arb_txin());
+            g.txins.push(v);
+            let v = g.sample(arb_txout());
+            g.txouts.push(v);
+            let v = g.sample(zcash_protocol::value::testing::arb_zat_balance());
+            g.balances.push(v);
+            let v = g.sample(proptest::prelude::any::<u32>());
+            g.words.push(v);
         }
+        while g.spends.len() < POOL || g.outputs.len() < POOL || g.sapling_auths.len() < 8 {
+            if let Some(b) = g.sample(sapling::bundle::testing::arb_bundle(ZatBalance::zero())) {
+                g.spends.extend(b.shielded_spends().iter().cloned());
+                g.outputs.extend(b.shielded_outputs().iter().cloned());
+                g.sapling_auths.push(*b.authorization());
+            }
+        }
+        g.spends.truncate(POOL);
+        g.outputs.truncate(POOL);
+        for k in 0..POOL as u64 {
+            let (sv, ov) = (NoteValue::from_raw(1 + (k * 7919) % 100_000), NoteValue::from_raw((k * 104_729) % 100_000));
+            let a = g.sample(arb_action(NoteVersion::V2, sv, ov));
+            g.actions.push(a);
+            let a = g.sample(arb_action(NoteVersion::V3, ov, sv));
+            g.iw_actions.push(a);
+        }
+        for _ in 0..8 {
+            let b = g.sample(arb_bundle(1));
+            g.orchard_misc.push((*b.anchor(), b.authorization().binding_signature().clone()));
+        }
+        g
     }
 
-    /// One value of a proptest strategy, drawn with this generator's seeded RNG.
+    /// One value of a proptest strategy, drawn with this generator's seeded RNG (order dependent).
     pub fn sample<S: Strategy>(&mut self, s: S) -> S::Value {
         s.new_tree(&mut self.runner).expect("strategy produces a value").current()
     }
 
-    fn next(&mut self) -> u64 {
-        self.counter += 1;
-        self.counter
-    }
-
-    fn fill_transparent(&mut self, n_in: usize, n_out: usize) {
-        use zcash_transparent::bundle::testing::{arb_txin, arb_txout};
-        while self.txins.len() < n_in.min(POOL_CAP) {
-            let v = self.sample(arb_txin());
-            self.txins.push(v);
-        }
-        while self.txouts.len() < n_out.min(POOL_CAP) {
-            let v = self.sample(arb_txout());
-            self.txouts.push(v);
-        }
-    }
-
-    fn fill_sapling(&mut self, n_sp: usize, n_out: usize) {
-        while self.spends.len() < n_sp.min(POOL_CAP) || self.outputs.len() < n_out.min(POOL_CAP) || self.sapling_sigs.len() < 8 {
-            if let Some(b) = self.sample(sapling::bundle::testing::arb_bundle(ZatBalance::zero())) {
-                self.spends.extend(b.shielded_spends().iter().cloned());
-                self.outputs.extend(b.shielded_outputs().iter().cloned());
-                self.sapling_sigs.push(*b.authorization());
-            }
-        }
-    }
-
-    fn fill_orchard(&mut self, n: usize, ironwood: bool) {
-        use orchard::bundle::testing::{arb_action, arb_bundle};
-        let nv = if ironwood { NoteVersion::V3 } else { NoteVersion::V2 };
-        loop {
-            let have = if ironwood { self.iw_actions.len() } else { self.actions.len() };
-            if have >= n.min(POOL_CAP) {
-                break;
-            }
-            let k = self.next();
-            let (sv, ov) = (NoteValue::from_raw(1 + (k * 7919) % 100_000), NoteValue::from_raw((k * 104_729) % 100_000));
-            let a = self.sample(arb_action(nv, sv, ov));
-            if ironwood { self.iw_actions.push(a) } else { self.actions.push(a) }
-        }
-        while self.orchard_misc.len() < 8 {
-            let b = self.sample(arb_bundle(1));
-            self.orchard_misc.push((*b.anchor(), b.authorization().binding_signature().clone()));
-        }
-    }
-
-    fn amount(&mut self) -> ZatBalance {
-        // boundary values a quarter of the time, otherwise the crate's strategy
-        let k = self.next();
+    fn amount(&self, r: &mut Salt) -> ZatBalance {
+        // boundary values a quarter of the time, otherwise a value of the crate's strategy
         let m = MAX_MONEY as i64;
-        match k % 8 {
+        match r.below(8) {
             0 => ZatBalance::from_i64(m).unwrap(),
             1 => ZatBalance::from_i64(-m).unwrap(),
-            _ => self.sample(zcash_protocol::value::testing::arb_zat_balance()),
+            _ => self.balances[r.below(self.balances.len())],
         }
     }
 
-    fn script(&mut self, len: usize) -> Script {
-        let k = self.next() as usize;
-        Script(zcash_script::script::Code((0..len).map(|i| zcash_transparent::bundle::testing::VALID_OPCODES[(i * 31 + k) % 8]).collect()))
+    fn word(&self, r: &mut Salt) -> u32 {
+        match r.below(4) {
+            0 => 0,
+            1 => u32::MAX,
+            _ => self.words[r.below(self.words.len())],
+        }
     }
 
-    fn orchard_parts(&mut self, n: usize, pool: ValuePool, branch: BranchId, proof_len: Option<usize>) -> Result<OrchardParts, String> {
-        let bv = orchard_bundle_version(branch, pool)
-            .ok_or_else(|| format!("no {:?} pool under branch {}", pool, branch_name(branch)))?;
+    fn script(r: &mut Salt, len: usize) -> Script {
+        let k = r.next() as usize;
+        Script(zcash_script::script::Code((0..len).map(|i| zcash_transparent::bundle::testing::VALID_OPCODES[(i * 31 + k + i / 8) % 8]).collect()))
+    }
+
+    fn orchard_parts(&self, r: &mut Salt, n: usize, pool: ValuePool, branch: BranchId, proof_len: Option<usize>) -> Result<OrchardParts, String> {
+        let bv = orchard_bundle_version(branch, pool).ok_or_else(|| format!("no {:?} pool under branch {}", pool, branch_name(branch)))?;
         let ironwood = pool == ValuePool::Ironwood;
-        self.fill_orchard(n, ironwood);
-        let k = self.next() as usize;
         let src = if ironwood { &self.iw_actions } else { &self.actions };
+        let k = r.below(src.len());
         let actions: Vec<OrchardAction> = (0..n).map(|i| src[(i + k) % src.len()].clone()).collect();
-        let (anchor, binding_sig) = self.orchard_misc[k % self.orchard_misc.len()].clone();
-        let mut byte = (k as u8 / 2) & 0b11;
-        if ironwood && k % 3 != 0 {
+        let (anchor, binding_sig) = self.orchard_misc[r.below(self.orchard_misc.len())].clone();
+        let mut byte = r.below(4) as u8;
+        if ironwood && r.below(3) != 0 {
             byte |= 0b100;
         }
         let flags = Flags::from_byte(byte, bv).ok_or("flag byte not representable")?;
         let plen = proof_len.unwrap_or_else(|| canonical_orchard_proof_len(n));
-        let proof: Vec<u8> = (0..plen).map(|i| (i as u64).wrapping_mul(2654435761).wrapping_add(k as u64 * 97) as u8).collect();
-        Ok(OrchardParts { actions, flags, value_balance: self.amount(), anchor, proof, binding_sig, bundle_version: bv })
+        Ok(OrchardParts { actions, flags, value_balance: self.amount(r), anchor, proof: r.bytes(plen), binding_sig, bundle_version: bv })
     }
 
-    fn joinsplit(&mut self, use_groth: bool) -> sprout::JsDescription {
+    fn joinsplit(r: &mut Salt, use_groth: bool) -> sprout::JsDescription {
         // JsDescription has no public constructor; its public reader is given a blob whose two
         // leading amounts are in range (everything else in a JoinSplit is opaque to the codec).
         let len = 8 + 8 + 32 + 64 + 64 + 32 + 32 + 64 + if use_groth { GROTH_PROOF_SIZE } else { 296 } + 2 * 601;
-        let k = self.next();
-        let mut blob: Vec<u8> = (0..len).map(|i| ((i as u64 + 1).wrapping_mul(0x9E37_79B9_7F4A_7C15 ^ k) >> 24) as u8).collect();
-        let (a, b) = match k % 4 {
+        let mut blob = r.bytes(len);
+        let (a, b) = match r.below(4) {
             0 => (MAX_MONEY, 0),
             1 => (0, MAX_MONEY),
-            _ => (k.wrapping_mul(1_000_003) % MAX_MONEY, 0),
+            2 => (0, 0),
+            _ => (r.next() % MAX_MONEY, 0),
         };
         blob[..8].copy_from_slice(&a.to_le_bytes());
         blob[8..16].copy_from_slice(&b.to_le_bytes());
         sprout::JsDescription::read(&blob[..], use_groth).expect("a JoinSplit blob with in-range amounts")
     }
 
-    /// The parts of a well-formed transaction of the given shape.
+    /// The parts of a well-formed transaction of the given shape (next salt of an internal counter).
     pub fn parts(&mut self, shape: &Shape) -> Result<TxParts, String> {
+        self.counter = mix(self.counter);
+        self.parts_with(shape, self.counter)
+    }
+
+    /// The parts of a well-formed transaction of the given shape: a pure function of
+    /// (generator seed, shape, salt).
+    pub fn parts_with(&self, shape: &Shape, salt: u64) -> Result<TxParts, String> {
         let v = shape.version;
         if !v.has_sapling() && (shape.n_spends > 0 || shape.n_outputs > 0) {
             return Err("the version has no Sapling bundle".into());
@@ -504,69 +536,67 @@ impl TxGen {
         if !v.has_sprout() && shape.n_joinsplits > 0 {
             return Err("the version has no Sprout bundle".into());
         }
-        self.fill_transparent(shape.n_vin, shape.n_vout);
-        let k = self.next() as usize;
-        let mut vin: Vec<_> = (0..shape.n_vin).map(|i| self.txins[(i + k) % self.txins.len()].clone()).collect();
-        let mut vout: Vec<_> = (0..shape.n_vout).map(|i| self.txouts[(i + k) % self.txouts.len()].clone()).collect();
-        if let (Some(l), Some(first)) = (shape.script_sig_len, vin.first().cloned()) {
-            vin[0] = TxIn::from_parts(first.prevout().clone(), self.script(l), first.sequence());
-        }
-        if let (Some(l), Some(first)) = (shape.script_pubkey_len, vout.first().cloned()) {
-            vout[0] = TxOut::new(first.value(), self.script(l));
-        }
-        if k % 5 == 0 {
-            if let Some(first) = vout.first().cloned() {
-                vout[0] = TxOut::new(Zatoshis::from_u64(MAX_MONEY).unwrap(), first.script_pubkey().clone());
+        for (l, n) in [(&shape.script_sig_lens, shape.n_vin), (&shape.script_pubkey_lens, shape.n_vout)] {
+            if l.as_ref().is_some_and(|l| l.len() != n) {
+                return Err("script length list does not match the count".into());
             }
         }
+        let r = &mut Salt(mix(salt ^ 0xC03));
+        let k = r.below(POOL);
+        let mut vin: Vec<_> = (0..shape.n_vin).map(|i| self.txins[(i + k) % POOL].clone()).collect();
+        let mut vout: Vec<_> = (0..shape.n_vout).map(|i| self.txouts[(i + k) % POOL].clone()).collect();
+        if let Some(lens) = &shape.script_sig_lens {
+            for (i, l) in lens.iter().enumerate() {
+                vin[i] = TxIn::from_parts(vin[i].prevout().clone(), Self::script(r, *l), vin[i].sequence());
+            }
+        }
+        if let Some(lens) = &shape.script_pubkey_lens {
+            for (i, l) in lens.iter().enumerate() {
+                vout[i] = TxOut::new(vout[i].value(), Self::script(r, *l));
+            }
+        }
+        if !vout.is_empty() && r.below(4) == 0 {
+            let i = r.below(vout.len());
+            let amt = if r.below(2) == 0 { MAX_MONEY } else { 0 };
+            vout[i] = TxOut::new(Zatoshis::from_u64(amt).unwrap(), vout[i].script_pubkey().clone());
+        }
+        if !vin.is_empty() && r.below(4) == 0 {
+            let i = r.below(vin.len());
+            vin[i] = TxIn::from_parts(OutPoint::new(*vin[i].prevout().hash(), u32::MAX), vin[i].script_sig().clone(), self.word(r));
+        }
         let sapling = if shape.n_spends + shape.n_outputs > 0 {
-            self.fill_sapling(shape.n_spends, shape.n_outputs);
-            let k = self.next() as usize;
+            let (ks, ko) = (r.below(POOL), r.below(POOL));
             Some(SaplingParts {
-                spends: (0..shape.n_spends).map(|i| self.spends[(i + k) % self.spends.len()].clone()).collect(),
-                outputs: (0..shape.n_outputs).map(|i| self.outputs[(i + k) % self.outputs.len()].clone()).collect(),
-                value_balance: self.amount(),
-                authorization: self.sapling_sigs[k % self.sapling_sigs.len()],
+                spends: (0..shape.n_spends).map(|i| self.spends[(i + ks) % POOL].clone()).collect(),
+                outputs: (0..shape.n_outputs).map(|i| self.outputs[(i + ko) % POOL].clone()).collect(),
+                value_balance: self.amount(r),
+                authorization: self.sapling_auths[r.below(self.sapling_auths.len())],
             })
         } else {
             None
         };
         let orchard = if shape.n_orchard > 0 {
-            Some(self.orchard_parts(shape.n_orchard, ValuePool::Orchard, shape.branch, shape.orchard_proof_len)?)
+            Some(self.orchard_parts(r, shape.n_orchard, ValuePool::Orchard, shape.branch, shape.orchard_proof_len)?)
         } else {
             None
         };
         let ironwood = if shape.n_ironwood > 0 {
-            Some(self.orchard_parts(shape.n_ironwood, ValuePool::Ironwood, shape.branch, None)?)
+            Some(self.orchard_parts(r, shape.n_ironwood, ValuePool::Ironwood, shape.branch, None)?)
         } else {
             None
         };
         let sprout = if shape.n_joinsplits > 0 {
             let use_groth = v.has_sapling();
-            let joinsplits = (0..shape.n_joinsplits).map(|_| self.joinsplit(use_groth)).collect();
-            let k = self.next();
-            let mut joinsplit_pubkey = [0u8; 32];
-            let mut joinsplit_sig = [0u8; 64];
-            joinsplit_pubkey.iter_mut().enumerate().for_each(|(i, b)| *b = (k as usize * 13 + i * 7) as u8);
-            joinsplit_sig.iter_mut().enumerate().for_each(|(i, b)| *b = (k as usize * 17 + i * 11) as u8);
+            let joinsplits = (0..shape.n_joinsplits).map(|_| Self::joinsplit(r, use_groth)).collect();
+            let joinsplit_pubkey: [u8; 32] = r.bytes(32).try_into().unwrap();
+            let joinsplit_sig: [u8; 64] = r.bytes(64).try_into().unwrap();
             Some(sprout::Bundle { joinsplits, joinsplit_pubkey, joinsplit_sig })
         } else {
             None
         };
-        let lock_time = match k % 4 {
-            0 => 0,
-            1 => u32::MAX,
-            _ => self.sample(proptest::prelude::any::<u32>()),
-        };
-        let expiry_height = if v.has_overwinter() {
-            match (k / 4) % 4 {
-                0 => 0,
-                1 => u32::MAX,
-                _ => self.sample(proptest::prelude::any::<u32>()),
-            }
-        } else {
-            0 // pre-Overwinter formats have no expiry field
-        };
+        let lock_time = self.word(r);
+        // pre-Overwinter formats have no expiry field
+        let expiry_height = if v.has_overwinter() { self.word(r) } else { 0 };
         let mut p = TxParts { version: v, branch: shape.branch, lock_time, expiry_height, vin, vout, sprout, sapling, orchard, ironwood };
         if matches!(v, TxVersion::V5 | TxVersion::V6) {
             p.unify_sapling_anchor();
@@ -584,7 +614,7 @@ impl TxGen {
 
     /// A transaction drawn from `zcash_primitives::transaction::testing::arb_txdata(branch)` and
     /// normalised to be well-formed (uniform Sapling anchor for V5+; Orchard bundle version of the
-    /// branch). Shapes are whatever the crate's strategy produces.
+    /// branch). Shapes are whatever the crate's strategy produces; depends on the draw order.
     pub fn arbitrary(&mut self, branch: BranchId) -> Result<TxParts, String> {
         let d = self.sample(zcash_primitives::transaction::testing::arb_txdata(branch));
         let mut p = TxParts::from_txdata(&d);
@@ -616,11 +646,8 @@ pub fn shape_of(d: &TransactionData<Authorized>) -> Shape {
         n_outputs: d.sapling_bundle().map_or(0, |b| b.shielded_outputs().len()),
         n_orchard: d.orchard_bundle().map_or(0, |b| b.actions().len()),
         n_ironwood: d.ironwood_bundle().map_or(0, |b| b.actions().len()),
-        script_sig_len: d.transparent_bundle().and_then(|b| b.vin.first()).map(|i| i.script_sig().0.0.len()),
-        script_pubkey_len: d.transparent_bundle().and_then(|b| b.vout.first()).map(|o| o.script_pubkey().0.0.len()),
+        script_sig_lens: Some(d.transparent_bundle().map_or(vec![], |b| b.vin.iter().map(|i| i.script_sig().0.0.len()).collect())),
+        script_pubkey_lens: Some(d.transparent_bundle().map_or(vec![], |b| b.vout.iter().map(|o| o.script_pubkey().0.0.len()).collect())),
         orchard_proof_len: d.orchard_bundle().map(|b| b.authorization().proof().as_ref().len()),
     }
 }
-
-#[allow(dead_code)]
-fn _outpoint_is_public(_: OutPoint) {}
